@@ -242,6 +242,9 @@ static void check_set_outcome(struct vep *e, struct arec *a, bool exists, bool t
         else if (se != ENOENT && se != EACCES && se != EINVAL) av("set-errno", name, "xcm_attr_set(\"%s\", type %d, len %zu) failed with errno %d (%s), documented are ENOENT/EACCES/EINVAL; %s", name, t, len, se, strerror(se), what);
         else if (!exists && se != ENOENT && se != EINVAL) av("set-errno", name, "xcm_attr_set on the non-existent \"%s\" failed with errno %d, expected ENOENT", name, se);
         else if (exists && se == ENOENT) av("set-errno", name, "xcm_attr_set on the existing \"%s\" (type %d, len %zu) failed with ENOENT; %s", name, t, len, what);
+        /* a switch to blocking mode that discovered a dead connection (user time-out of a back-pressured socket on a slow machine, ...) did not
+         * cause what it discovered: the attribute set of a failed connection differs for that reason, not because of the rejected set */
+        if (!strcmp(name, "xcm.blocking") && veng_is_conn_errno(se)) { vobs("blocking_switch_found_dead_connection", 1); return; }
         struct snap after; snap_take(e, &after);
         const char *d = snap_diff(before, &after, NULL);
         if (d) { vobs("set_side_effect_checks", 0); av("set-rejected-with-side-effect", name, "xcm_attr_set(\"%s\", type %d, len %zu) was rejected with errno %d, yet %s; %s", name, t, len, se, d, what); }
